@@ -61,3 +61,73 @@ def check(ctx, rep, rule='R13.2'):
     rep.ob(rule, 'year-shift-depends-on-month', dep_month, 'the year used for the day count is shifted for January/February'
            if dep_month else 'the day-count year does not depend on the month')
     rep.sample({'julian-day year term': show(Y, maxd=5)[:200]})
+
+    # ---- the whole Meeus formula: JD = B + floor(365.25 (Y + 4716)) + floor(30.6001 (M + 1)) + D - 1524.5 with
+    #      B = 2 - A + floor(A / 4), A = floor(Y / 100) after 1582-10-15 and B = 0 before; D = day - gmt / 24
+    from .. import formula as F
+    from .. import domains as D
+    Ms = set()
+    for x in subterms(ret):
+        if x and x[0] == 'app' and x[1] == 'floor':
+            a = x[2][0]
+            if a[0] == 'bin' and a[1] == 'Mul':
+                for k, y in ((a[2], a[3]), (a[3], a[2])):
+                    if const_f64(k) is not None and abs(const_f64(k) - 30.6001) < 1e-9 and y[0] == 'bin' and y[1] == 'Add' and const_f64(y[3]) == 1.0:
+                        Ms.add(y[2])
+    vals = [x for x in (ret[4] if ret[0] == 'enum' else ()) if isinstance(x, tuple)]
+    a_adt = ctx.lib.adts.get(ret[1]) if ret[0] == 'enum' else None
+    value = None
+    if a_adt:
+        for f, v in zip(a_adt['variants'][0]['fields'], ret[4]):
+            if f['ty']['s'] == 'f64':
+                value = v
+    days = [x for x in subterms(ret) if x and x[0] == 'app' and x[1].endswith('Datelike>::day')]
+    gmts = [x for x in subterms(ret) if x and x[0] == 'field' and x[1] == ('param', 'gmt')]
+    if len(Ms) != 1 or value is None or not days or not gmts:
+        rep.ob(rule, 'meeus-formula', None, 'month term / value field / day / gmt operand not identified')
+        return
+    Mt = next(iter(Ms))
+    K = lambda v: E.C('f64', float(v))
+    fl = lambda t: ('app', 'floor', (t,))
+    A = fl(('bin', 'Div', Y, K(100)))
+    Bg = ('bin', 'Add', ('bin', 'Sub', K(2), A), fl(('bin', 'Div', A, K(4))))
+    Dd = ('bin', 'Sub', days[0], ('bin', 'Div', gmts[0], K(24)))
+
+    def ref(greg):
+        t = ('bin', 'Add', fl(('bin', 'Mul', K(365.25), ('bin', 'Add', Y, K(4716)))), fl(('bin', 'Mul', K(30.6001), ('bin', 'Add', Mt, K(1)))))
+        t = ('bin', 'Add', t, Dd)
+        t = ('bin', 'Sub', t, K(1524.5))
+        return ('bin', 'Add', Bg, t) if greg else t
+    # the Gregorian test is whatever condition selects between a correction and none: decide every case of the value's conditions
+    conds = [c for c in D.ite_conds(value) if not any(z == Y or z == Mt for z in (c,))]
+    conds = [c for c in conds if c not in D.ite_conds(Y) and c not in D.ite_conds(Mt)]
+    import itertools
+    verdicts = set()
+    detail = ''
+    n = 0
+    for bits in itertools.product([True, False], repeat=min(len(conds), 5)):
+        v = E.specialise(value, dict(zip(conds, bits)))
+        n += 1
+        best = None
+        for greg in (True, False):
+            cn = F.Canon()
+            r1 = F.compare_polys(cn.cf(ref(greg)), cn.cf(v))
+            if r1 == 'equal':
+                best = 'equal'
+                break
+            cn2 = F.Canon(trunc_as_floor=True)
+            r2 = F.compare_polys(cn2.cf(ref(greg)), cn2.cf(v))
+            if r2 == 'equal':
+                best = 'truncation'
+                detail = ('a term that must be floored is truncated toward zero by an integer cast; it is negative for most centuries, so '
+                          'the Julian Day is one day late there')
+            elif best is None and 'different' in (r1, r2):
+                best = 'different'
+                detail = f'Julian Day is {F.show_poly(cn.cf(v), show)[:260]}'
+        verdicts.add(best)
+    if verdicts == {'equal'}:
+        rep.ob(rule, 'meeus-formula', True, f'the Julian Day is the Meeus formula in all {n} cases of its conditions')
+    elif 'truncation' in verdicts or 'different' in verdicts:
+        rep.ob(rule, 'meeus-formula', False, detail)
+    else:
+        rep.ob(rule, 'meeus-formula', None, 'the Julian Day is written with other operations than the reference formula: not decided')
